@@ -95,6 +95,8 @@ static bool guard_queue_check(const struct cmi_heap_tag *a,
     return false;
 }
 
+static void wakeup_event_resource(void *vp, void *arg);
+
 /* Start very small and fast, 2^GUARD_INIT_EXP = 8 slots in the initial queue */
 #define GUARD_INIT_EXP 3u
 
@@ -161,6 +163,15 @@ int64_t cmb_resourceguard_wait(struct cmb_resourceguard *rgp,
     /* Back here, possibly much later. Return the signal that resumed us. */
     if (sig != CMB_PROCESS_SUCCESS) {
         cmi_hashheap_cancel((struct cmi_hashheap *)rgp, key);
+
+        /* We may already have been taken off the queue with a wakeup event on
+         * its way (granted in this same instant). Withdraw it, or it would
+         * resume us out of whatever we do next, and ring the bell again so
+         * the grant passes on to the next in line instead of getting lost. */
+        (void)cmb_event_pattern_cancel(wakeup_event_resource, pp, CMB_ANY_OBJECT);
+        if (!rgp->evaluate_all) {
+            (void)cmb_resourceguard_signal(rgp);
+        }
     }
 
     cmb_assert_debug(!cmi_hashheap_is_enqueued((struct cmi_hashheap *)rgp, key));
